@@ -43,7 +43,17 @@ var (
 	c17Files  map[*os.File]*c17File
 	c17Source *sizedSrc
 	c17Target *c17File
+	c17Names  map[string]bool // files that exist (by path)
+	c17Eff    int             // file-system effects so far (create, write, rename, remove)
+	c17Crash  int             // the process dies right after this many effects (-1: never)
 )
+
+func c17Effect() {
+	c17Eff++
+	if c17Crash >= 0 && c17Eff == c17Crash {
+		verifrt.Crash()
+	}
+}
 
 type c17Stat struct{}
 
@@ -62,12 +72,18 @@ func installC17World(n int) {
 	c17Files = map[*os.File]*c17File{}
 	c17Source = &sizedSrc{n: n}
 	c17Target = nil
+	c17Names = map[string]bool{}
+	c17Eff, c17Crash = 0, -1
 	verifrt.Override("os.Stat", func(name string) (os.FileInfo, error) { return c17Stat{}, nil })
 	verifrt.Override("os.OpenFile", func(name string, flag int, perm os.FileMode) (*os.File, error) {
 		f := new(os.File)
 		if flag&os.O_WRONLY != 0 {
 			c17Target = &c17File{}
 			c17Files[f] = c17Target
+			if flag&os.O_CREATE != 0 {
+				c17Names[name] = true
+				c17Effect()
+			}
 		} else {
 			c17Files[f] = &c17File{src: c17Source}
 		}
@@ -76,7 +92,25 @@ func installC17World(n int) {
 	verifrt.Override("(*os.File).Read", func(f *os.File, p []byte) (int, error) { return c17Files[f].src.Read(p) })
 	verifrt.Override("(*os.File).Write", func(f *os.File, p []byte) (int, error) {
 		c17Files[f].written += len(p)
+		c17Effect()
 		return len(p), nil
+	})
+	verifrt.Override("os.Rename", func(a, b string) error {
+		if !c17Names[a] {
+			return verifrt.NewError("rename: no such file")
+		}
+		delete(c17Names, a)
+		c17Names[b] = true
+		c17Effect()
+		return nil
+	})
+	verifrt.Override("os.Remove", func(a string) error {
+		if !c17Names[a] {
+			return verifrt.NewError("remove: no such file")
+		}
+		delete(c17Names, a)
+		c17Effect()
+		return nil
 	})
 	verifrt.Override("(*os.File).Close", func(f *os.File) error { return nil })
 	// what os.genericReadFrom does when the kernel offers no shortcut: the plain io.Copy loop
@@ -124,4 +158,37 @@ func VerifC17_Loaders() {
 	verifrt.Assert(err == nil, "copy of a readable source succeeds")
 	verifrt.Assert(c17Target != nil && c17Target.written == n, "exactly the n bytes of the source are written")
 	verifrt.Reach("streamed")
+}
+
+// VerifC20_DownloadArtefacts: the REAL file and URL loaders fetch a document into the temporary file the
+// repository created for them (work_dir/crl_<n>_tmp). Whatever happens - success, a source that breaks
+// off, or the process dying right after ANY file-system effect of the loader - nothing exists afterwards
+// but that one file: so the repository's own deferred removal, or after a crash the start-up sweep
+// (^crl_.*_tmp$), leaves the work_dir clean. (No second artefact under a name the sweep does not know.)
+func VerifC20_DownloadArtefacts() {
+	const target = "/work/crl_424242_tmp"
+	installC17World(70000)
+	c17Names[target] = true // created by the repository (os.CreateTemp) before the loader is called
+	c17Crash = -1
+	if k := verifrt.Choose(verifrt.Param("maxeffects", 8) + 1); k > 0 {
+		c17Crash = k
+	}
+	useURL := verifrt.Choose(2) == 1
+	crashed := verifrt.CatchCrash(func() {
+		if useURL {
+			l := &URLLoader{UrlString: "http://pki.example.com/ca.crl", Logger: zap.NewNop()}
+			_ = l.downloadCRL("http://pki.example.com/ca.crl", target)
+		} else {
+			l := &FileLoader{FileName: "/etc/pki/ca.crl", Logger: zap.NewNop()}
+			_ = l.copyToTargetFile(target)
+		}
+	})
+	if crashed {
+		verifrt.Reach("died-during-download")
+	} else {
+		verifrt.Reach("download-returned")
+	}
+	for name := range c17Names {
+		verifrt.Assert(name == target, "the loader leaves nothing behind but the temporary file it was given (which the repository removes and the start-up sweep knows)")
+	}
 }
